@@ -134,6 +134,7 @@ PURE_BUILTINS = {
     "RuntimeError", "StopIteration", "AssertionError",
 }
 
+BUILTIN_TYPES = {"dict", "list", "set", "frozenset", "tuple", "str", "int", "float", "bytes", "bool", "object"}
 LIST_ORDERED = {"append", "extend", "insert", "appendleft", "extendleft"}
 KEYED_MUT = {"add", "discard", "update", "setdefault", "remove", "clear", "difference_update", "intersection_update",
              "symmetric_difference_update", "popitem", "sort", "reverse"}
@@ -145,6 +146,10 @@ STR_TO_STR = {"join", "format", "strip", "lstrip", "rstrip", "lower", "upper", "
 STR_TO_INT = {"startswith", "endswith", "find", "rfind", "index", "rindex", "count", "isdigit", "isalpha",
               "isalnum", "isspace", "isupper", "islower", "isidentifier", "isnumeric", "isdecimal"}
 STR_TO_LIST = {"split", "rsplit", "splitlines", "partition", "rpartition"}
+
+
+BUILTIN_METHOD_NAMES = (STR_TO_STR | STR_TO_INT | STR_TO_LIST | LIST_ORDERED | KEYED_MUT | SET_ALGEBRA | SET_PRED
+                        | {"pop", "get", "items", "keys", "values", "index", "count", "read", "write", "close", "seek", "tell"})
 
 
 class Table(dict):
@@ -852,6 +857,17 @@ class Pkg:
                 else:
                     r = TOP
                 return r
+            if isinstance(f.value, ast.Name) and f.value.id in BUILTIN_TYPES and self.lookup(f.value.id, sc) == TOP:
+                if f.value.id == "dict" and f.attr == "fromkeys":
+                    sid = self.new_site(n, "dict", sc, "fromkeys")
+                    self.upd(self.elem, sid, self.elem_of(pos[0] if pos else BOT))
+                    self.upd(self.val, sid, pos[1] if len(pos) > 1 else NONE)
+                    return self.site_ty(sid)
+                if f.value.id == "str":
+                    return STR
+                if f.value.id in ("int", "float"):
+                    return INT
+                return TOP
             rt = self.ev(f.value, sc)
             return self.method_call(rt, f.attr, n, pos, kws, sc, star)
         self.ev(f, sc)
@@ -919,7 +935,7 @@ class Pkg:
             defs = self.methods_by_name.get(m, ()) if not self.sites(rt) else ()
             for f in defs:
                 r = join(r, self.call_scope(f, pos, kws, None, star))
-            if not defs or not self.closed_world:
+            if not defs or not self.closed_world or m in BUILTIN_METHOD_NAMES:
                 # closed world by name: a method name defined by the analysed package, used on a receiver of
                 # unknown type inside the package, denotes one of those definitions (declared assumption)
                 r = join(r, TOP)
@@ -1802,6 +1818,8 @@ class Effects:
                 base = base.func if isinstance(base, ast.Call) else base.value
             if isinstance(base, ast.Name) and base.id in LOGGER_NAMES:
                 return [("pure",)]
+            if isinstance(f.value, ast.Name) and f.value.id in BUILTIN_TYPES and pkg.lookup(f.value.id, fs) == TOP:
+                return [("pure",)]  # dict.fromkeys, str.join, int.from_bytes ...: constructors / pure helpers
             m = f.attr
             callees = pkg.callees(c, fs)
             rt = pkg.ev(f.value, fs)
@@ -2374,6 +2392,9 @@ class Classifier:
             # drain loop: while S: x = S.pop(); ...
             if isinstance(par, ast.While) and st in par.body:
                 test = par.test
+                if isinstance(test, ast.Compare) and len(test.ops) == 1 and isinstance(test.ops[0], (ast.Gt, ast.NotEq)) \
+                        and isinstance(test.comparators[0], ast.Constant) and test.comparators[0].value == 0:
+                    test = test.left  # len(S) > 0 / len(S) != 0
                 if isinstance(test, ast.Call) and isinstance(test.func, ast.Name) and test.func.id == "len" and test.args:
                     test = test.args[0]
                 if ast.dump(test) == src and par.body.index(st) == 0 and not par.orelse:
